@@ -20,12 +20,18 @@ def r1_shell_quoting(chk: Check) -> None:
     else:
         chk.ok("C09.R1", fn, "`quote` is shlex.quote", "", fn.loc())
     n = 0
+    # the command accumulator: the local first bound to an f-string that starts with `curl`
+    from ..astutil import fstring_head
+
+    cmd_vars = {t.id for x in walk_body(fn.node) if isinstance(x, ast.Assign) and isinstance(x.value, (ast.JoinedStr, ast.Constant)) and (fstring_head(x.value) or const_str(x.value) or "").startswith("curl") for t in x.targets if isinstance(t, ast.Name)}
+    if not cmd_vars:
+        raise Undecided("the variable accumulating the curl command is not recognised")
     for node in walk_body(fn.node):
         if not isinstance(node, ast.JoinedStr):
             continue
         st = stmt_of(node)
         # f-strings that build / extend `command` or are returned
-        relevant = isinstance(st, (ast.Return, ast.AugAssign)) or (isinstance(st, ast.Assign) and any(isinstance(t, ast.Name) and t.id == "command" for t in st.targets))
+        relevant = isinstance(st, ast.Return) or (isinstance(st, ast.AugAssign) and isinstance(st.target, ast.Name) and st.target.id in cmd_vars) or (isinstance(st, ast.Assign) and any(isinstance(t, ast.Name) and t.id in cmd_vars for t in st.targets))
         if not relevant:
             continue
         for part in node.values:
@@ -44,7 +50,7 @@ def r1_shell_quoting(chk: Check) -> None:
                     chk.ok("C09.R1", fn, construct, f"{helper.name} is a plain wrapper of shlex.quote", fn.loc(part))  # type: ignore[union-attr]
                 else:
                     chk.violation("C09.R1", fn, construct, f"quoted by the home-grown helper `{helper.name}` on some path instead of shlex.quote: hand-written shell quoting (e.g. double quotes, where backslash, $ and ` stay special) changes what curl sends for some inputs", fn.loc(part))  # type: ignore[union-attr]
-            elif isinstance(e, ast.Name) and e.id == "command":
+            elif isinstance(e, ast.Name) and e.id in cmd_vars:
                 chk.ok("C09.R1", fn, construct, "the command built so far", fn.loc(part))
             elif isinstance(e, ast.Name) and e.id == "method":
                 chk.ok("C09.R1", fn, construct, "named suppression: HTTP method token (no shell metacharacters in a token)", fn.loc(part))
@@ -54,9 +60,25 @@ def r1_shell_quoting(chk: Check) -> None:
         chk.undecided("C09.R1", "<discovery>", f"parts={n}", "fewer interpolated parts than confirmed by hand (5)")
     # what is quoted: the whole `Name: value` header, the body, the url
     t = unparse(fn.node, 100000)
-    chk.expect("header = f'{key}: {value}'" in t and "-H {quote(header)}" in t, "C09.R1", fn, "each header is passed as one quoted `-H 'Name: value'` argument", "header argument construction changed", fn.loc())
-    chk.expect("-d {quote(body)}" in t, "C09.R1", fn, "body passed as one quoted -d argument", "body argument construction changed", fn.loc())
-    chk.expect("command = f'curl -X {method}'" in t, "C09.R1", fn, "method passed with -X", "the method is not part of the command", fn.loc())
+
+    def quoted_after(flag: str) -> list[ast.expr]:
+        """Arguments x of `... {flag} {quote(x)}` parts of the command f-strings."""
+        out = []
+        for js in (x for x in walk_body(fn.node) if isinstance(x, ast.JoinedStr)):
+            for i, part in enumerate(js.values):
+                if isinstance(part, ast.FormattedValue) and isinstance(part.value, ast.Call) and dotted(part.value.func) == "quote" and i > 0 and (const_str(js.values[i - 1]) or "").endswith(f" {flag} "):
+                    out.append(part.value.args[0])
+        return out
+
+    hdr_args = quoted_after("-H")
+    loop_ = next((x for x in walk_body(fn.node) if isinstance(x, ast.For) and pmatch("headers.items()", x.iter) is not None and isinstance(x.target, ast.Tuple) and len(x.target.elts) == 2), None)
+    hdr_ok = False
+    if hdr_args and loop_ is not None and all(isinstance(e_, ast.Name) for e_ in loop_.target.elts):  # type: ignore[attr-defined]
+        k_, v_ = (e_.id for e_ in loop_.target.elts)  # type: ignore[attr-defined]
+        hdr_ok = any(f"f'{{{k_}}}: {{{v_}}}'" in canon(fn, a) for a in hdr_args)
+    chk.expect(hdr_ok, "C09.R1", fn, "each header is passed as one quoted `-H 'Name: value'` argument", "header argument construction changed", fn.loc())
+    chk.expect(any(is_var(a, "body") for a in quoted_after("-d")), "C09.R1", fn, "body passed as one quoted -d argument", "body argument construction changed", fn.loc())
+    chk.expect(any(isinstance(x, ast.JoinedStr) and (fstring_head(x) or "").startswith("curl -X ") and len(x.values) > 1 and isinstance(x.values[1], ast.FormattedValue) and is_var(x.values[1].value, "method") for x in walk_body(fn.node)), "C09.R1", fn, "method passed with -X", "the method is not part of the command", fn.loc())
     chk.expect("if not verify:" in t and "--insecure" in t, "C09.R1", fn, "--insecure only when TLS verification was off", "verify flag handling changed", fn.loc())
     # every header is emitted (the loop has no skipping path besides the explicit filter)
     loop = next((x for x in walk_body(fn.node) if isinstance(x, ast.For) and "headers.items()" in unparse(x.iter)), None)
@@ -75,27 +97,40 @@ def r2_real_headers(chk: Check) -> None:
             continue
         c = cs[0]
         h, v = kwarg(c, "headers"), kwarg(c, "verify")
-        chk.decide(h is not None and unparse(h) == "failure_data.headers", "C09.R2", fn, "as_curl_command(headers=failure_data.headers)", f"headers come from `{unparse(h)}`: credentials / headers the transport added are missing from the command", fn.loc(c))
-        chk.decide(v is not None and unparse(v) == "failure_data.verify", "C09.R2", fn, "as_curl_command(verify=failure_data.verify)", f"verify comes from `{unparse(v)}`", fn.loc(c))
+        fd = defined_by(fn, "$v = $_.find_failure_data(...)")
+        if not fd:
+            chk.violation("C09.R2", fn, "failure data looked up in the recorder", "the recorded request of the failing case is not consulted for the reproduction command", fn.loc(c))
+            continue
+        chk.decide(h is not None and unparse(h) == f"{fd[0]}.headers", "C09.R2", fn, "as_curl_command(headers=failure_data.headers)", f"headers come from `{unparse(h)}`: credentials / headers the transport added are missing from the command", fn.loc(c))
+        chk.decide(v is not None and unparse(v) == f"{fd[0]}.verify", "C09.R2", fn, "as_curl_command(verify=failure_data.verify)", f"verify comes from `{unparse(v)}`", fn.loc(c))
         recv = unparse(c.func.value) if isinstance(c.func, ast.Attribute) else ""
-        chk.decide(recv == "failure_data.case", "C09.R2", fn, "command built for the case that failed (failure_data.case)", f"command is built for `{recv}`", fn.loc(c))
+        chk.decide(recv == f"{fd[0]}.case", "C09.R2", fn, "command built for the case that failed (failure_data.case)", f"command is built for `{recv}`", fn.loc(c))
     ffd = P.func("engine/recorder.py:ScenarioRecorder.find_failure_data")
-    t = unparse(ffd.node, 100000)
-    chk.expect("request = self.interactions[case_id].request" in t and "for key, value in request.headers.items()" in t.replace("(key, value)", "key, value"), "C09.R2", ffd, "headers taken from the recorded request of that case", "headers are not those of the recorded request", ffd.loc())
-    chk.expect("case_id = failure.case_id or parent_id" in t, "C09.R2", ffd, "failure's own case id first", "the failing case is not the one looked up", ffd.loc())
-    chk.expect("verify=response.verify" in t, "C09.R2", ffd, "verify from the recorded response", "verify flag is not the recorded one", ffd.loc())
+    fdc = [r for r in simple_return_expr(ffd) if isinstance(r, ast.Call) and last_attr(r) == "FailureData"]
+    if not fdc:
+        chk.undecided("C09.R2", ffd, "FailureData(case=..., headers=..., verify=...)", "return shape not recognised", ffd.loc())
+    else:
+        ID = "failure.case_id or parent_id"
+        hs_ = canon(ffd, kwarg(fdc[0], "headers"), depth=5)
+        chk.expect(any(f"self.interactions[{ID}].request.headers.items()" in x for x in hs_), "C09.R2", ffd, "headers taken from the recorded request of that case", "headers are not those of the recorded request", ffd.loc())
+        chk.expect(any(x == f"self.cases[{ID}].value" for x in canon(ffd, kwarg(fdc[0], "case"), depth=5)), "C09.R2", ffd, "failure's own case id first", "the failing case is not the one looked up", ffd.loc())
+        chk.expect(any(x == f"self.interactions[{ID}].response.verify" for x in canon(ffd, kwarg(fdc[0], "verify"), depth=5)), "C09.R2", ffd, "verify from the recorded response", "verify flag is not the recorded one", ffd.loc())
     acc = P.func("generation/case.py:Case.as_curl_command")
     gen = [c for c in body_calls(acc) if dotted(c.func) == "curl.generate"]
     if gen:
-        want = {"method": "str(request_data.method)", "url": "str(request_data.url)", "body": "request_data.body", "verify": "verify", "headers": "dict(request_data.headers)", "known_generated_headers": "dict(self.headers or {})"}
+        rd = defined_by(acc, "$v = prepare_request(...)")
+        R = rd[0] if rd else "request_data"
+        want = {"method": f"str({R}.method)", "url": f"str({R}.url)", "body": f"{R}.body", "verify": "verify", "headers": f"dict({R}.headers)", "known_generated_headers": "dict(self.headers or {})"}
         for k, v in want.items():
             val = kwarg(gen[0], k)
-            chk.decide(val is not None and unparse(val) == v, "C09.R2", acc, f"curl.generate({k}={v})", f"`{k}` receives `{unparse(val)}`", acc.loc(gen[0]))
+            if not rd:
+                chk.undecided("C09.R2", acc, f"curl.generate({k}=...)", "prepare_request(...) result not found", acc.loc(gen[0]))
+                continue
+            chk.decide(val is not None and unparse(val) == v, "C09.R2", acc, f"curl.generate({k}={v.replace(R, 'request_data')})", f"`{k}` receives `{unparse(val)}`", acc.loc(gen[0]))
     pr = [c for c in body_calls(acc) if last_attr(c) == "prepare_request"]
     chk.decide(bool(pr) and unparse(pr[0].args[0]) == "self" and unparse(pr[0].args[1]) == "headers", "C09.R2", acc, "prepare_request(self, headers, ...)", "the command is not prepared from this case and the given headers", acc.loc())
     prq = P.func("transport/prepare.py:prepare_request")
-    t = unparse(prq.node, 100000)
-    chk.expect("REQUESTS_TRANSPORT.serialize_case(case, base_url=base_url, headers=headers)" in t, "C09.R2", prq, "same serializer as the requests transport", "the command is prepared by a different serialisation than the one that sent the request", prq.loc())
+    chk.expect(phas("REQUESTS_TRANSPORT.serialize_case(case, base_url=$b, headers=headers)", prq.node), "C09.R2", prq, "same serializer as the requests transport", "the command is prepared by a different serialisation than the one that sent the request", prq.loc())
 
 
 def r3_filter_headers(chk: Check) -> None:
@@ -110,9 +145,15 @@ def r3_filter_headers(chk: Check) -> None:
     for d in dels:
         guard = next((a for a in ancestors(d) if isinstance(a, ast.If)), None)
         t = unparse(guard.test, 300) if guard is not None else ""
-        ok = "key not in known_generated_headers" in t and "key in get_excluded_headers()" in t and isinstance(guard.test, ast.BoolOp) and isinstance(guard.test.op, ast.And)  # type: ignore[union-attr]
-        if "key in known_generated_headers" in t and "not in" not in t.split("known_generated_headers")[0][-12:]:
-            ok = False
+        dk = d.targets[0].slice if isinstance(d.targets[0], ast.Subscript) else None
+        kname = dk.id if isinstance(dk, ast.Name) else None
+        ok = None if guard is not None else False
+        if guard is not None and kname:
+            keeps = phas(f"{kname} not in known_generated_headers", guard.test)
+            auto = phas(f"{kname} in get_excluded_headers()", guard.test)
+            ok = keeps and auto and isinstance(guard.test, ast.BoolOp) and isinstance(guard.test.op, ast.And)
+            if phas(f"{kname} in known_generated_headers", guard.test):
+                ok = False
         chk.decide(ok, "C09.R3", fn, "delete only if not generated AND auto-added", f"guard `{t}` removes headers that belong to the generated case", fn.loc(d))
     ex = P.func(f"{CURL}:get_excluded_headers")
     t = unparse(ex.node, 100000)
